@@ -45,7 +45,7 @@ GInit ==
     /\ accepted = [i \in M |-> <<>>]
     /\ seen = [i \in M |-> [k \in 1..MaxN |-> <<>>]]
     /\ nArr = [i \in M |-> 0]
-    /\ recvFrom = [i \in M |-> [j \in M |-> 0]]
+    /\ recvFrom = [i \in M |-> [j \in M |-> {}]]
     /\ rcvErr = [i \in M |-> 0]
     /\ outcome = [i \in M |-> Running]
     /\ hist = <<>>
